@@ -167,8 +167,13 @@ class Interp:
             return False
         return self.decide([cond, z3.Not(cond)]) == 0
 
-    def prove(self, name, cond, note=""):
-        """Side obligation: ``cond`` must follow from the path condition.  Recorded, then assumed."""
+    def prove(self, name, cond, note="", split=True):
+        """Side obligation: ``cond`` must follow from the path condition.  Recorded, then assumed.
+        A conjunction is proved conjunct by conjunct (earlier conjuncts are available for later ones)."""
+        if split and isinstance(cond, z3.BoolRef) and z3.is_and(cond) and cond.num_args() > 1:
+            for idx, c in enumerate(cond.children()):
+                self.prove(f"{name}#{idx}", c, note, split=False)
+            return
         if cond is True:
             self.side.append(Obligation(name, "unsat", note=note))
             return
